@@ -51,13 +51,13 @@ fn gen_map(rng: &mut Rng, table: &Table, vars: &[String], gcfg: &GenCfg, st: &mu
                     }
                     1 => {
                         st.bump("replacements_renaming");
-                        Tree::var(["p", "q", "x", "y"][rng.below(4)])
+                        Tree::var(["p", "q", "x", "y", "B", "Q", "a"][rng.below(7)])
                     }
                     2 => {
                         // mentions the replaced variable itself
                         st.bump("replacements_self_referential");
                         let bins: Vec<usize> = (0..table.len()).filter(|i| table[*i].bin.is_some()).collect();
-                        Tree::bin(*rng.pick(&bins), Tree::Var(v.clone()), Tree::var(["y", "q", "x"][rng.below(3)]))
+                        Tree::bin(*rng.pick(&bins), Tree::Var(v.clone()), Tree::var(["y", "q", "x", "C", "v3", "A5"][rng.below(6)]))
                     }
                     _ => {
                         st.bump("replacements_compound");
@@ -70,6 +70,10 @@ fn gen_map(rng: &mut Rng, table: &Table, vars: &[String], gcfg: &GenCfg, st: &mu
         }
     }
     m
+}
+
+thread_local! {
+    static MANY: std::cell::Cell<u64> = const { std::cell::Cell::new(0) };
 }
 
 fn problem(tree: &Tree, maps: &[BTreeMap<String, Tree>], table: &Table, deep: bool) -> Option<String> {
@@ -102,6 +106,9 @@ fn problem(tree: &Tree, maps: &[BTreeMap<String, Tree>], table: &Table, deep: bo
                 }
             };
             let ex = expect(&cur_tree, table);
+            if ex.vars.len() > 16 {
+                MANY.with(|m| m.set(m.get() + 1));
+            }
             let o = match &cur {
                 E::F(f) => observe(f),
                 E::D(d) => observe(d),
@@ -128,8 +135,19 @@ pub fn run(ctx: &Ctx) -> i32 {
                 table = gen_table(rng, &TableCfg::default());
                 install(&table);
             }
-            let gcfg = GenCfg { lit_num: rng.below(6), un_num: rng.below(3), vars: ["x", "y", "z", "p", "q", "a b"].iter().map(|s| s.to_string()).collect(), ..GenCfg::default() };
-            let size = rng.range(1, 14);
+            // names whose byte order differs from their case-insensitive order; every fifth case has
+            // more distinct names than the inline capacity of the name lists (16), with repetitions
+            let many = i % 5 == 2;
+            let vars: Vec<String> = if many {
+                (0..rng.range(17, 30)).map(|k| format!("{}{}", ["v", "A", "w", "Z"][k % 4], k)).collect()
+            } else {
+                ["x", "y", "z", "p", "q", "a b", "B", "Zeta", "a", "C", "α", "Ω"].iter().map(|s| s.to_string()).collect()
+            };
+            let gcfg = GenCfg { lit_num: if many { 1 } else { rng.below(6) }, un_num: rng.below(3), vars, ..GenCfg::default() };
+            let size = if many { rng.range(18, 50) } else { rng.range(1, 14) };
+            if many {
+                st.bump("cases_with_many_variables");
+            }
             let tree = gen_tree(rng, &table, size, &gcfg);
             let rounds = rng.range(1, 3);
             let mut maps = vec![];
@@ -144,7 +162,9 @@ pub fn run(ctx: &Ctx) -> i32 {
             st.bump(if deep { "cases_deep" } else { "cases_flat" });
             st.add("substitution_rounds", rounds as u64);
             st.class((deep, tree.shape_key(&table), maps.iter().map(|m| m.len()).collect::<Vec<_>>()));
-            if let Some(p) = problem(&tree, &maps, &table, deep) {
+            let verdict = problem(&tree, &maps, &table, deep);
+            st.add("results_with_more_than_16_variables", MANY.with(|m| m.replace(0)));
+            if let Some(p) = verdict {
                 if st.violations.len() < 6 {
                     let mut pred = |t: &Tree| problem(t, &maps, &table, deep).is_some();
                     let small = shrink_tree(&tree, &mut pred, 200);
@@ -165,9 +185,11 @@ pub fn run(ctx: &Ctx) -> i32 {
         }
     });
     let report = Report::new(
-        "random trees (1..14 operands, variables x y z p q {a b}) x 1..3 rounds of partial maps variable -> expression (constants, renamings, swaps x:=y,y:=x, identity, empty map, compound replacements, replacements that mention the replaced variable itself) on FlatEx and DeepEx over the term algebra with random tables. Oracle: one-pass simultaneous substitution on the reference tree; after every round the variable list must be the sorted union of untouched and replacement variables and the term (mod AC) the substituted reference. distinct_nontrivial = distinct (form, tree shape, map sizes) classes.",
+        "random trees (1..14 operands over mixed-case, Greek and braced variable names; every fifth case 18..50 operands over 17..30 distinct names with repetitions) x 1..3 rounds of partial maps variable -> expression (constants, renamings, swaps x:=y,y:=x, identity, empty map, compound replacements, replacements that mention the replaced variable itself) on FlatEx and DeepEx over the term algebra with random tables. Oracle: one-pass simultaneous substitution on the reference tree; after every round the variable list must be the sorted union of untouched and replacement variables and the term (mod AC) the substituted reference. distinct_nontrivial = distinct (form, tree shape, map sizes) classes.",
     )
     .require("maps_empty", 500)
+    .require("cases_with_many_variables", 2000)
+    .require("results_with_more_than_16_variables", 500)
     .require("maps_swap", 500)
     .require("maps_identity", 500)
     .require("replacements_self_referential", 1000)
